@@ -20,6 +20,7 @@ def main() -> int:
     seed = int(os.environ.get("VERIF_SEED", "0") or 0)
     from .world import HarnessError
     from .explore import unjson
+    from .wire import Reject
 
     try:
         mod = importlib.import_module(f"mc.props.{prop.lower()}")
@@ -36,8 +37,16 @@ def main() -> int:
         t0 = time.time()
         stats, rule, assumptions, bounds = mod.run(args.tier, seed)
         return finish(prop, args.tier, seed, stats, t0, rule, assumptions, bounds, mod.TECHNIQUE)
+    except Reject as e:
+        # only reachable from --replay (the explorers turn it into a verdict themselves)
+        print(f"VIOLATION reproduced: the instance transmitted a datagram that the independent RFC 1035 decoder rejects ({e})")
+        return 1
     except HarnessError as e:
         print(f"HARNESS-ERROR: {e}")
+        traceback.print_exc()
+        return 2
+    except Exception as e:  # noqa: BLE001 - a crash of the machinery is never a verdict about the property
+        print(f"HARNESS-ERROR: unexpected {type(e).__name__}: {e}")
         traceback.print_exc()
         return 2
 
